@@ -89,6 +89,7 @@ def campaign(pid, tier, seed):
         add(R.gen_bigbuf, 20 if q else 300)
         add(R.gen_blocked_slot, 6 if q else 60)
         add(R.gen_gz_content, 1 if q else 12, "only")      # a rotated file of several MiB goes through compression
+        add(R.gen_zone_history, 6 if q else 100, "C05")    # the calendar leaves a day and returns to it
     elif pid == "C06":
         add(R.gen_history, 110 if q else 2200, "C06")
         add(R.gen_index_crossing, 12 if q else 120)
@@ -98,6 +99,7 @@ def campaign(pid, tier, seed):
     elif pid == "C07":
         add(R.gen_history, 130 if q else 2500, "C07")
         add(R.gen_bigbuf, 25 if q else 400)
+        add(R.gen_zone_history, 8 if q else 120, "C07")    # records dated before the day of the file they arrive at
     elif pid == "C08":
         add(R.gen_history, 70 if q else 1200, "C08")
         add(R.gen_gz_content, 22 if q else 400, not q)
